@@ -1696,6 +1696,13 @@ class Authenticated(BaseClientHandler):
         copyuid = self._format_copyuid(dest_mbox, src_uid_list, dst_uid_list)
         await self.client.push(f"* OK {copyuid}\r\n")
 
+        # The copy phase may have queued notifications for this client (FETCH
+        # responses for new messages when the destination is the mailbox we
+        # have selected.) They use the message sequence numbers from before
+        # the expunge, so they have to go out before the EXPUNGEs do.
+        #
+        await self.send_pending_notifications()
+
         # Phase 3: Re-acquire the source mailbox and expunge the moved
         # messages by their UIDs, regardless of the Deleted sequence.
         #
